@@ -20,6 +20,13 @@ class C18(core.Property):
     audit_imports = ["HappyProofs.C18.Props"]
     lean_files = ["HappyModel/C18/*.lean", "HappyProofs/C18/*.lean", "HappyModel/Proto.lean", "Driver/C18.lean"]
     theorems = []  # filled from THEOREMS below
+    partial_theorems = {
+        "HappyModel.C18.store_trace_satisfies_spec_partial":
+            "full statement store_trace_satisfies_spec_full (judgeStore of the model's transcript = none) is not proved: "
+            "proved are the judge's knowledge reconstruction (= the model's, every step kind) and the value clause; the clauses "
+            "store/key/missing-after-update, store/gossip/state-omits-known-key and the final clause "
+            "store/gossip/no-convergence-after-heal-and-rounds on the model's transcript are tested only",
+    }
     variants = ["repaired", "current"]   # store family: adoption of a peer's key (fixes/C18-store-adopts-remote-node-id)
     quick_cases = 4500
     thorough_cases = 100000
@@ -68,7 +75,19 @@ class C18(core.Property):
         "judge's liveness clause store/gossip/no-convergence-after-heal-and-rounds uses the flows a lossless round owes by the "
         "script and the peer lists (push to the chosen peer, answer when the peer lists the sender), the theorem the merges the "
         "model performs through its messages (`gossipPairs`); that both have the same reach is tested, not proved",
-        "the judge-accepts-model link for the store judge (judgeStore on the model's own transcript returns none) is tested, not proved",
+        "clocks_trace_satisfies_spec: the observation of an event is (L, V, H of the model's record, the dict clocks' verdicts against "
+        "all events oldest first); the transcript prints the first n components of V (all components when every event's node is < n)",
+        "store judge on the model's own transcript (traceObs = the judge-visible projection of Driver.runStore's lines, by "
+        "construction, not proved at string level): PROVED for every script, peer list and CRDT kind — the judge's reconstruction of "
+        "what every store / message has received equals the model's (store_judge_knows_model, all step kinds incl. lossless "
+        "rounds) and every reported value passes the value clause (store_trace_values_accepted). NOT proved (tested on every "
+        "generated case): the clauses store/key/missing-after-update and store/gossip/state-omits-known-key on the model's "
+        "transcript (need: a store < n has received an update of a key only if it holds the key; script stores and peers < n), "
+        "and the final clause store/gossip/no-convergence-after-heal-and-rounds",
+        "the final liveness clause vs store_gossip_phase_converges: 'same reach' is false literally (per key, a store that does not "
+        "hold the key emits no merge for it, while the judge's owed flows are key-independent); the true link is at knowledge level "
+        "(after rounds whose owed flows are full, every store's knowledge of every key = the union over the stores at phase "
+        "start, an unheld key having empty knowledge) — not proved",
     ]
 
     # ------------------------------------------------------------------ generation
@@ -679,6 +698,7 @@ THEOREMS = [
     "HappyModel.C18.kvec_happened_before_spec",
     "HappyModel.C18.keyed_clock_refines_vector",
     "HappyModel.C18.keyed_vector_strict_iff_hb",
+    "HappyModel.C18.clocks_trace_satisfies_spec",
     # CRDTStore replicas under gossip
     "HappyModel.C18.store_refines_replicas",
     "HappyModel.C18.store_counter_value_spec",
@@ -696,6 +716,10 @@ THEOREMS = [
     "HappyModel.C18.exchange_all_converges",
     "HappyModel.C18.store_exchange_converges",
     "HappyModel.C18.store_gossip_phase_converges",
+    "HappyModel.C18.store_judge_knows_model",
+    "HappyModel.C18.judgeValue_replica",
+    "HappyModel.C18.store_trace_values_accepted",
+    "HappyModel.C18.store_trace_satisfies_spec_partial",
 ]
 C18.theorems = THEOREMS
 PROPERTY = C18()
